@@ -297,9 +297,16 @@ Definition s_c05_leaf (args : list (list Z)) : list Z :=
          | Ok v => 0 :: enc_bytes (enc_int ty v) | CErr => [1] | _ => [3] end
   end.
 
+(* C08: the source fails at its k-th request; the fault-free run of the
+   implementation issues n requests (measured by the harness). The model's
+   claim: k <= n gives the source error, otherwise the fault-free outcome. *)
+Definition s_c08_fault (args : list (list Z)) : list Z :=
+  if (argz 3 args <=? argz 4 args) then [2] else s_prog args.
+
 Definition run_stream (sid : N) (args : list (list Z)) : list Z :=
   match sid with
-  | 201%N | 301%N | 502%N | 901%N | 1001%N | 1101%N => s_prog args
+  | 201%N | 301%N | 502%N | 701%N | 901%N | 1001%N | 1101%N => s_prog args
+  | 801%N => s_c08_fault args
   | 401%N => s_c04_roundtrip args
   | 501%N => s_c05_leaf args
   | 601%N => s_c06_tree args
